@@ -251,6 +251,20 @@ func (c *Ctx) lin1(v, v0 ssa.Value) Lin {
 			}
 		}
 		return atom(a)
+	case *ssa.Extract:
+		// first result of a size-returning function: (n int, err error)
+		if call, ok := x.Tuple.(*ssa.Call); ok && x.Index == 0 {
+			n := guard.CalleeName(&call.Call)
+			if i := strings.LastIndex(n, "."); i >= 0 {
+				m := strings.ToLower(n[i+1:])
+				if strings.HasSuffix(m, "size") || strings.HasSuffix(m, "sizeinbytes") || strings.HasSuffix(m, "len") || strings.HasSuffix(m, "length") {
+					a := c.name(v)
+					c.nonneg[a] = true
+					c.Assumed[a] = true
+					return atom(a)
+				}
+			}
+		}
 	case *ssa.Phi:
 		if inCycle(x.Block()) {
 			c.LoopVariant = true
